@@ -244,7 +244,15 @@ def run(ctx):
             else:
                 if reg or unreg or mov:
                     bad3.append(("no expiry change but the index is touched", p))
-            # weight command
+            # weight command: sent exactly when there is a weight to apply, independent of any other state
+            wopt = [a for a in atoms if a[0] == "enum" and a[2] in (("Some",), ("None",)) and
+                    mentions(a[1], lambda s: s[0] == "call" and s[1].endswith("updated_weight")) and a is not ca[0]]
+            if wopt:
+                has_weight = wopt[-1][2] == ("Some",)
+                if has_weight and len(sends) != 1:
+                    bad4.append(("a weight is to be applied but %d UpdateWeight commands are queued (the charged weight would not follow the request)" % len(sends), p))
+                if not has_weight and sends:
+                    bad4.append(("no weight to apply but a command is queued", p))
             if len(sends) > 1:
                 bad4.append(("%d commands queued" % len(sends), p))
             for b, t in sends:
@@ -281,11 +289,7 @@ def run(ctx):
                   "; ".join("%s via %s" % (w, q[:10]) for w, q in bad5[:3]))
     # ---- R08.8 the index operations the upsert relies on do what their classification requires (shared with C10 R10.1)
     import c10
-    sub = type(ctx)(ctx.prop, ctx.facts, ctx.tier, ctx.config)
-    sub.no_share = True
-    if not getattr(ctx, "no_share", False):
-        c10.run(sub)
-    for o in sub.obligations:
+    for o in ctx.own_of("c10"):
         if o["rule"] == "R10.1" and any(x in o["key"] for x in ("move-old-to-new", "insert-under-own-expiry", "shard-from-expiry")):
             ctx._add(o["status"], "R08.8", o["key"].split("|", 1)[1], o["desc"] + " [the upsert's TTL change is only effective if the expiry index follows it]", o["where"], o["detail"])
 
